@@ -430,9 +430,47 @@ def objcheck(G, pairs):
                 bad.append("object code of %s has %d indirect call instruction(s), the .ci graph %d" % (G["dem"][nf], nind, ci_ind))
     return bad, checked
 
+def vtable_check(G, pairs, classes=("_ZTVN5rtosc6RtDataE", "_ZTVN3c0311CaptureDataE")):
+    """The VIRT rule against the compiled vtables: every function a vtable of
+    rtosc::RtData / c03::CaptureData points to (destructors aside) must be a VIRT
+    target.  Functions folded by identical-code-folding are found through the
+    object's symbol table (same section, same address)."""
+    names, virt = set(G["names"]), set(G["virt"])
+    bad, seen = [], 0
+    # symbols that share an address in the object that defines them
+    at, where, baseof = {}, {}, {}
+    for obj, base in pairs:
+        sym = subprocess.run(["objdump", "-t", obj], stdout=subprocess.PIPE).stdout.decode("utf-8", "replace")
+        for line in sym.split("\n"):
+            m = re.match(r"^([0-9a-f]+) .{7} (\S+)\s+[0-9a-f]+\s+(\S+)$", line)
+            if m and " F " in line and m.group(2) != "*UND*":
+                k = (obj, m.group(2), m.group(1))
+                at.setdefault(k, []).append(m.group(3))
+                where.setdefault(m.group(3), k)
+                baseof.setdefault(m.group(3), base)
+    for obj, base in pairs:
+        rel = subprocess.run(["objdump", "-r", obj], stdout=subprocess.PIPE).stdout.decode("utf-8", "replace")
+        blocks = re.split(r"RELOCATION RECORDS FOR \[([^\]]*)\]:", rel)
+        for i in range(1, len(blocks) - 1, 2):
+            sec, body = blocks[i], blocks[i + 1]
+            if not any(sec.endswith("." + c) for c in classes):
+                continue
+            for m in re.finditer(r"R_X86_64_64\s+([^\s+]+)", body):
+                f = m.group(1)
+                if f.startswith("_ZTI") or re.search(r"D[012]Ev$", f) or f == "__cxa_pure_virtual":
+                    continue
+                seen += 1
+                cands = [f] + at.get(where.get(f), [])
+                nodes = [c for x in cands for c in (baseof.get(x, base) + ":" + x, x) if c in names]
+                if not any(n in virt for n in nodes):
+                    bad.append("%s points to %s, which is not a target of rule VIRT" % (sec.rsplit(".", 1)[-1], f))
+    if seen < 10:
+        bad.append("only %d vtable entries of RtData/CaptureData found" % seen)
+    return bad, seen
+
 # ---------------------------------------------------------------------------
 def clean(s):
-    return s.replace("(*", "( *").replace("*)", "* )")
+    return s.replace("(*", "( *").replace("*)", "* )").replace('"', "'")
 
 def emit_coq(G, path, origin):
     num = {n: i + 1 for i, n in enumerate(G["names"])}
@@ -546,6 +584,8 @@ def generate(ctx):
         m = re.match(r'graph: \{ title: "([^"]*)"', first)
         pairs.append((c[:-3] + ".o", os.path.basename(m.group(1)) if m else ""))
     bad, checked = objcheck(G, pairs)
+    vbad, vseen = vtable_check(G, pairs)
+    bad += vbad
     # the dynamic harness links the 'plain' variant: its code must be the code analysed here
     same = 0
     try:
@@ -561,7 +601,7 @@ def generate(ctx):
                 same += 1
     except Exception as e:                          # pragma: no cover
         bad.append("could not compare the plain and cgraph builds: %s" % e)
-    G["objcheck"] = {"functions_checked": checked, "objects_identical_to_plain_build": same, "discrepancies": bad}
+    G["objcheck"] = {"functions_checked": checked, "vtable_entries_checked": vseen, "objects_identical_to_plain_build": same, "discrepancies": bad}
     origin = "%s (content hash %s), %d .ci files" % (ctx["REPO"], vcheck.repo_hash(), len(ci) + 1)
     num = emit_coq(G, os.path.join(ctx["COQ"], "RtGraph", "Graph_gen.v"), origin)
     G["num"] = num
